@@ -789,6 +789,7 @@ func opHandlerBind(env *LEnv, args *LVal) *LVal {
 	// terminal.  If an expression were marked as terminal env might try to
 	// invoke tail recursion optimizations.
 	env.Runtime.Stack.Top().TROBlock = true
+	verifEv(env.Runtime.Stack, "tro", 0, 0, "", "")
 	for _, c := range forms {
 		val = env.Eval(c)
 		if val.Type == LError {
@@ -839,6 +840,7 @@ func opIgnoreErrors(env *LEnv, args *LVal) *LVal {
 	// terminal.  If an expression were marked as terminal env might try to
 	// invoke tail recursion optimizations.
 	env.Runtime.Stack.Top().TROBlock = true
+	verifEv(env.Runtime.Stack, "tro", 0, 0, "", "")
 	for _, c := range args.Cells {
 		val = env.Eval(c)
 		if val.Type == LError {
